@@ -7,7 +7,8 @@ From Coq Require Import List NArith ZArith Bool.
 From Falco Require Import Base.Bytes Gen.TokenTypes Model.ParseKinds Gen.ParserTables
   Model.ParseBase Model.Ast Model.ParseLit Model.ParseExpr Model.ParseStmt Model.ParseDecl Model.Yield
   Proofs.ParseTables Proofs.ParseExprYield Proofs.ParseExprTotal Proofs.ParsePratt Proofs.ParseRoundtrip
-  Proofs.ParseLitFacts Proofs.ParseStmtYield Proofs.ParseDeclYield Proofs.ParseStmtTotal Proofs.ParseDeclTotal Proofs.ParseLocated Proofs.ParseLocated2.
+  Proofs.ParseLitFacts Proofs.ParseStmtYield Proofs.ParseDeclYield Proofs.ParseStmtTotal Proofs.ParseDeclTotal Proofs.ParseLocated Proofs.ParseLocated2 Proofs.ParseProgram Proofs.ParseProgram2
+  Proofs.ParseProgram3 Proofs.ParseProgram4 Proofs.ParseProgram5.
 Import ListNotations.
 Local Open Scope N_scope.
 
@@ -154,6 +155,26 @@ Theorem C02_parse_expression_error_located :
   forall fok ts k t rem, parse_expression fok ts = PErr k t rem -> located ts t rem.
 Proof. exact parse_expression_error_located. Qed.
 
+(* program_roundtrip (M2), PARTIAL: uniqueness of parse for statements and declarations.  For every
+   canonical program [cprog ds] - a list of canonical declarations of EVERY kind (acl with negation,
+   long-string address and mask; backend with nested .probe; director with properties and backend
+   objects; table with optional type and optional last comma; sub with parameters and return type;
+   penaltybox; ratecounter; import; include) whose blocks hold canonical statements of every
+   covered kind at any nesting depth (set add unset remove declare call-with-arguments error return
+   log synthetic synthetic.base64 goto label include esi restart block function-call
+   if / else if / elseif / elsif / else chains) with canonical expressions - ParseVCL on the tokens
+   of the program returns exactly the program.  NOT covered: switch statements (and the break /
+   fallthrough statements that only occur in them): [covered_kind].  Follow conditions are part of
+   [cstmt s nx] (a label is not followed by `(`, an include without `;` not by `;`, an if without
+   else not by else / elseif / elsif).  Witness: ex_prog in Proofs/ParseProgram5.v. *)
+Theorem C02_program_roundtrip_partial :
+  forall fok ds, cprog fok ds -> parse_vcl fok (flat_map ystmt ds) = POK (Vcl ds false).
+Proof. exact program_roundtrip. Qed.
+
+Theorem C02_program_roundtrip_covered_kinds :
+  forall fok s nx, cstmt fok s nx -> covered_kind s = true.
+Proof. exact cstmt_covered. Qed.
+
 Print Assumptions C02_tables_are_documented.
 Print Assumptions C02_parse_expr_yield.
 Print Assumptions C02_parse_stmt_yield.
@@ -179,3 +200,5 @@ Print Assumptions C02_parse_error_located.
 Print Assumptions C02_parse_vcl_error_located.
 Print Assumptions C02_parse_snippet_error_located.
 Print Assumptions C02_parse_expression_error_located.
+Print Assumptions C02_program_roundtrip_partial.
+Print Assumptions C02_program_roundtrip_covered_kinds.
